@@ -10,9 +10,10 @@ VALIDATE_MODELS = ['ws', 'utf8', 'graphemes']
 VALIDATION_CASES = {'quick': 150, 'thorough': 600}
 TIME_BUDGET = {'quick': 900, 'thorough': 3300}
 BOUNDS = {
-    'quick': 'strings of <= 4 characters, every UTF-8 width combination (1-4 bytes per character), code points fully '
-             'symbolic inside their width class; both modes (grapheme mode over the alphabet Sigma_g of models_text.py)',
-    'thorough': 'same with <= 5 characters',
+    'quick': 'code-point mode: strings of <= 4 characters, grapheme mode: <= 3 code points over the alphabet Sigma_g of '
+             'models_text.py; every UTF-8 width combination (1-4 bytes per character), code points fully symbolic '
+             'inside their width class',
+    'thorough': 'same with <= 5 characters (code-point mode) and <= 4 code points (grapheme mode)',
 }
 OUTSIDE = ['strings longer than the bound', 'grapheme mode outside Sigma_g (Hangul, Indic conjuncts, regional '
            'indicators, prepend characters)', 'the unicode-segmentation tables themselves (diff-tested model)']
@@ -22,11 +23,10 @@ ASSUMPTIONS = ['std models listed under coverage.std_models_used', 'grapheme seg
 
 
 def shapes(tier):
-    n = 4 if tier == 'quick' else 5
-    out = []
-    for g in (False, True):
-        for ws in width_shapes(n):
-            out.append({'widths': ws, 'g': g})
+    ncp, ng = (4, 3) if tier == 'quick' else (5, 4)
+    out = [{'widths': ws, 'g': False} for ws in width_shapes(ncp)]
+    out += [{'widths': ws, 'g': True} for ws in width_shapes(ng)]
+    out.sort(key=lambda sh: -len(sh['widths']))
     return out
 
 
